@@ -374,6 +374,8 @@ class QasmOutput:
         def fallback(op):
             if len(op.qubits) not in [1, 2]:
                 return NotImplemented
+            if any(d != 2 for d in protocols.qid_shape(op)):
+                return NotImplemented  # only qubits can be written to OpenQASM registers
 
             mat = protocols.unitary(op, None)
             if mat is None:
